@@ -203,9 +203,9 @@ type runner struct {
 	rcell   int // deadline cells as last stored by the harness (0 = zero time)
 	wcell   int
 	lcell   int
-	seq     int            // events performed so far
-	chgSeq  map[byte]int   // per kind: seq of the last deadline change
-	rchg    int // instant of last change
+	seq     int          // events performed so far
+	chgSeq  map[byte]int // per kind: seq of the last deadline change
+	rchg    int          // instant of last change
 	wchg    int
 	lchg    int
 	nextSn  uint32 // next data sn to deliver to the session
